@@ -1,5 +1,5 @@
 (* internal/option: option kinds, values and Save. *)
-From GO Require Import Base.Str.
+From GO Require Import Base.Str Base.Utf8.
 From Coq Require Import String.
 Open Scope N_scope.
 
@@ -207,7 +207,7 @@ Section WithFloat.
     | [] => (m, None)
     | e :: a' =>
         match split_first 61 e with
-        | Some (k, v) => save_map lower used (map_set (if lower then to_lower k else k) v m) a'
+        | Some (k, v) => save_map lower used (map_set (if lower then go_lower k else k) v m) a'
         | None => (m, Some (e_not_kv used))
         end
     end.
